@@ -1,7 +1,7 @@
 """C01 - DPOP returns an optimal assignment on every DCOP and schedule."""
 from ..algocheck import run_algo_check, replay  # noqa: F401
 
-SHAPES = ["single", "unary1", "pair", "pair3", "pairrev", "parallel", "unarypair", "isolated", "isounary", "path3", "path3d3",
+SHAPES = ["single", "unary1", "pair", "pair3", "pairrev", "parallel", "unarypair", "upair1", "upath", "ustar", "uall", "isolated", "isounary", "path3", "path3d3",
           "fork3", "triangle", "tern", "ternpair", "twocomp", "path4", "star4", "cycle4", "tritail", "tritails", "kite"]
 LARGE = ["path5", "tree5", "tern5"]
 CLAUSES = {"EXC", "quiet_but_not_all_finished", "finished_with_incomplete_assignment", "finished_on_non_optimal_assignment"}
